@@ -249,7 +249,7 @@ func sameFields(a, b []fixwire.Field) bool {
 func c03Property(t *rapid.T) {
 	c := c03()
 	cfg := simCfg{begin: rapid.SampledFrom(allBegins).Draw(t, "begin"), initiator: rapid.Bool().Draw(t, "initiator"), hb: 30,
-		store: rapid.SampledFrom([]string{"memory", "memory", "file"}).Draw(t, "store"), settings: map[string]string{}}
+		store: rapid.SampledFrom([]string{"memory", "memory", "file", "sql"}).Draw(t, "store"), settings: map[string]string{}}
 	persist := rapid.IntRange(0, 4).Draw(t, "persist") != 0
 	useDict := rapid.Bool().Draw(t, "dictionary")
 	if !persist {
